@@ -172,6 +172,16 @@ func TestChild(t *testing.T) {
 			runtime.GOMAXPROCS(4)
 		}
 		childFree(o)
+	case "logwalk":
+		if runtime.GOMAXPROCS(0) < 4 {
+			runtime.GOMAXPROCS(4)
+		}
+		childLogWalk(o)
+	case "logout":
+		if runtime.GOMAXPROCS(0) < 4 {
+			runtime.GOMAXPROCS(4)
+		}
+		childLogOut(o)
 	case "cron":
 		if runtime.GOMAXPROCS(0) < 4 {
 			runtime.GOMAXPROCS(4)
